@@ -37,6 +37,17 @@ from spyne.protocol.dictdoc import DictDocument
 RE_HTTP_ARRAY_INDEX = re.compile(r"\[([0-9]+)]")
 
 
+def _natural_key(k):
+    """Sort key that compares the array indexes inside a flat key as numbers.
+
+    >>> _natural_key("a[10].b[2]")
+    ['a', 10, '.b', 2, '']
+    """
+    retval = RE_HTTP_ARRAY_INDEX.split(k)
+    retval[1::2] = [int(i) for i in retval[1::2]]
+    return retval
+
+
 def _s2cmi(m, nidx):
     """
     Sparse to contiguous mapping inserter.
@@ -180,7 +191,8 @@ class SimpleDictDocument(DictDocument):
         logger.debug("Simple type info key: %r", simple_type_info.keys())
 
         idxmap = defaultdict(dict)
-        for orig_k, v in sorted(doc.items(), key=lambda _k: _k[0]):
+        for orig_k, v in sorted(doc.items(),
+                                        key=lambda _k: _natural_key(_k[0])):
             k = RE_HTTP_ARRAY_INDEX.sub("", orig_k)
 
             member = simple_type_info.get(k, None)
